@@ -37,7 +37,13 @@ var matrix = []base{
 	{"rm=1&nm=3&parts=0,1,0&nb=2&policy=input&xf=moved", 3, 4, "multi move order"},
 	{"ver=0.8.2.0&rm=1&nm=2", 3, 4, "v0"},
 	{"ver=0.10.2.0&rm=1&nm=2&fm=2&ff=100", 3, 3, "v1 batch"},
+	// RequiredAcks = NoResponse: the broker never answers, success is reported once the request is written
+	{"acks=0&rm=1&nm=3&parts=0,1,0&nb=1&policy=input", 2, 3, "acks0"},
+	// a message whose Encoder fails when the batch is built: an error for it, nothing else is disturbed
+	{"rm=1&nm=3&np=1&badenc=2&policy=input", 2, 3, "bad encoder"},
+	{"idem=1&rm=1&nm=3&np=1&badenc=2&policy=input", 2, 3, "idem bad encoder"},
 	{"rm=1&nm=2&bo=100", 3, 4, "backoff"},
+	{"rm=2&nm=2&bo=100&bofunc=1", 3, 4, "backoff func"},
 	{"rm=1&nm=2&mfaults=drop,leader-unavailable", 3, 4, "meta"},
 	// a leader election: partition 0 is leaderless for a while (every metadata answer says so), then led again
 	{"idem=1&rm=2&nm=2&np=1&election=1", 3, 4, "idem election"},
@@ -56,6 +62,8 @@ var matrix = []base{
 	{"sync=2&idem=1&rm=1&nm=3&np=1&fm=2&ff=100", 3, 4, "sync idem batch"},
 	{"closeany=1&rm=1&nm=2", 3, 4, "close"},
 	{"closeany=1&idem=1&rm=1&nm=2&fm=2&ff=100", 3, 4, "close idem"},
+	// the application shuts down with Close() at any point: Close drains Successes itself and returns the errors it collected
+	{"closeany=1&sclose=1&rm=1&nm=2", 2, 3, "close sclose"},
 }
 
 // Deep scenarios: minimal alphabets (one produce fault, one metadata fault, no gates) explored to a larger
